@@ -1137,6 +1137,53 @@ def frag_layer(run, rng, tier, model):
             if r["der"] != exp:
                 run.violation("oracle:frag:value", dict(rep, what="RC_OK, but the value is not the one the fragments hold: DER (length/CRC-32) %s, built in: %s" % (r["der"], exp)))
                 continue
+    # ---- faithfulness of coq/Rt/SafetyFrag.v: what the C asked of realloc() while it decoded = the requests of the modelled
+    # loops run on the chunk sizes of every level (outermost first: an open type is collected whole before its contents are decoded)
+    def level_chunks(me, lv):
+        ty = me["ty"]
+        tree = ty.tree(me["n"])
+        f = me["fr"].get(lv)
+        if f is None:
+            f = FR.canonical(FR.level_units(tree, lv, me["fr"]))
+        return FR.chunks_of(f[0], f[1])
+
+    def model_cmds(me):
+        cmds = []
+        for lv, (loop, bpc) in enumerate(me["ty"].loops):
+            cs = level_chunks(me, lv)
+            if loop == "ot":
+                cmds.append("fragot " + ",".join(str(c) for c in cs))
+            elif loop in ("str", "int"):
+                cmds.append("fragstr %d %s" % (1 if loop == "str" else 0, ",".join(str(c * bpc if bpc else (c + 7) // 8) for c in cs)))
+            elif loop == "list":
+                cmds.append("fragarr %d" % sum(cs))
+        return cmds
+    tie = [(i, model_cmds(me)) for i, me in enumerate(metas) if results[i] is not None and me["kind"] != "trunc" and results[i]["rc"] == "OK"]
+    distinct = sorted(set(c for _, cs in tie for c in cs))
+    mans = dict(zip(distinct, model_par(model, distinct))) if distinct else {}
+    tlog("frag: model done (%d distinct loop runs)" % len(distinct))
+    for i, cmds in tie:
+        r, me = results[i], metas[i]
+        exp, inb = [], True
+        for c in cmds:
+            a = mans[c]
+            mm = re.search(r"rq=(\S+) w=([01])$", a)
+            if not mm:
+                exp, inb = None, a
+                break
+            inb = inb and mm.group(2) == "1"
+            exp += [] if mm.group(1) == "-" else [int(x) for x in mm.group(1).split(",")]
+        run.count("frag_model_tie")
+        rep = {"type": me["tn"], "writer": me["ty"].name, "command_line": lines[i], "c": outs[i], "model_lines": cmds, "model": [mans[c] for c in cmds], "module": m["text"]}
+        if exp is None or inb is not True:
+            run.violation("model:frag:bounds", dict(rep, what="Rt/SafetyFrag.v reports a store outside its block (excluded by C04_frag_*_writes_in_bounds) or an unreadable answer"), no_input=True)
+            continue
+        exp = [str(x) for x in exp if x >= 1024]
+        if "more" in r["rq"]:
+            run.count("frag_model_tie_trace_too_long")
+        elif r["rq"] != exp:
+            run.violation("model:frag:realloc-trace", dict(rep, what="the sizes the C asks of realloc() while it reassembles the fragments (%s) are not those of the modelled loops (%s)" % (",".join(r["rq"]) or "-", ",".join(exp) or "-")),
+                          no_input=True)
     # the same value in every fragmentation: return code, DER, constraint verdict and re-encoding of the canonical order
     for i, me in enumerate(metas):
         r = results[i]
